@@ -22,6 +22,8 @@
 (*   term                           the owner's wait for termination (wait *)
 (*                                  group / WaitStop) has just returned    *)
 (*   cfg    {nl, q}                 what SlotSize and QSize / Size report  *)
+(*   late   {stoppers, accepted, executed, other, stuck}   one Stop || Stop *)
+(*                                  round, counted by the harness          *)
 (*   burst  {n, own, entered, overlap, disorder, wronglane}   n calls one  *)
 (*                                  after the other, counted by the harness *)
 (*   quiet  {alive, term, final}    every goroutine is parked: some        *)
@@ -115,6 +117,17 @@ TBurst(e) ==
   /\ e.overlap = 0 /\ e.disorder = 0 /\ e.wronglane = 0
   /\ UNCHANGED allvars
 
+(* One Stop-race round on a fresh, started executor of this trace's kind and *)
+(* lane count (the lanes may be far more than LaneIds): several goroutines   *)
+(* called Stop at the same moment and each submitted one call as soon as ITS *)
+(* Stop had returned.  After a Stop that returned - any of them - no call is *)
+(* accepted and none is executed; every one of those callers was told        *)
+(* "closed"; Stop, the callers and the owner's wait for termination all      *)
+(* came back.                                                                *)
+TLate(e) ==
+  /\ e.accepted = 0 /\ e.executed = 0 /\ e.other = 0 /\ e.stuck = 0
+  /\ UNCHANGED allvars
+
 (* the getters (SlotSize, QSize / Size) report the configuration, also while calls are in flight *)
 TCfg(e) == e.nl = nl /\ e.q = qsize /\ UNCHANGED allvars
 
@@ -135,6 +148,7 @@ Consume ==
                                ELSE Step([op |-> "run"])
          [] e.ev = "term"   -> TTerm
          [] e.ev = "burst"  -> TBurst(e)
+         [] e.ev = "late"   -> TLate(e)
          [] e.ev = "cfg"    -> TCfg(e)
          [] e.ev = "stopi"  -> IF stopst = "no" THEN Step([by |-> e.by, op |-> "stopi"])
                                ELSE UNCHANGED allvars                      \* Stop again: no-op
